@@ -86,6 +86,9 @@ type Action struct {
 	MidSeq int    `json:"midSeq"`
 	// Empty: the unparsable numeric field (Sq / Integ = "nonnum") is present WITHOUT a value instead of holding letters
 	Empty bool `json:"empty"`
+	// NumTxt: the text of the unparsable numeric field (Sq / Integ = "nonnum"); "" = letters.  With Integ = "nonnum" it replaces
+	// the value of the message's own numeric field (HeartBtInt of a Logon, BeginSeqNo of a ResendRequest) where there is one
+	NumTxt string `json:"numTxt"`
 }
 
 func (a *Action) norm() {
@@ -112,6 +115,16 @@ func idBytes(id []int) []byte {
 func Inbound(a *Action, peerID, ourID string, ts string) []byte {
 	var ty string
 	var body []Field
+	bad := func(def string) string { // the unparsable text
+		if a.Empty {
+			return ""
+		}
+		if a.NumTxt != "" {
+			return a.NumTxt
+		}
+		return def
+	}
+	ownField := a.Integ == "nonnum" && a.NumTxt != "" && (a.A == "logon" || a.A == "resend")
 	switch a.A {
 	case "logon":
 		ty = "A"
@@ -119,7 +132,11 @@ func Inbound(a *Action, peerID, ourID string, ts string) []byte {
 		if !a.Cred {
 			pw = "bad"
 		}
-		body = []Field{F("98", a.Enc), F("108", strconv.Itoa(a.Hb)), F("553", "user"), F("554", pw)}
+		hb := strconv.Itoa(a.Hb)
+		if ownField {
+			hb = a.NumTxt
+		}
+		body = []Field{F("98", a.Enc), F("108", hb), F("553", "user"), F("554", pw)}
 	case "logout":
 		ty = "5"
 	case "hbt":
@@ -129,7 +146,11 @@ func Inbound(a *Action, peerID, ourID string, ts string) []byte {
 		body = []Field{{"112", idBytes(a.ID)}}
 	case "resend":
 		ty = "2"
-		body = []Field{F("7", strconv.Itoa(a.B)), F("16", strconv.Itoa(a.E))}
+		b := strconv.Itoa(a.B)
+		if ownField {
+			b = a.NumTxt
+		}
+		body = []Field{F("7", b), F("16", strconv.Itoa(a.E))}
 	case "app":
 		ty = "D"
 		body = []Field{F("11", "ord1"), F("55", "BTC/USD")}
@@ -144,19 +165,11 @@ func Inbound(a *Action, peerID, ourID string, ts string) []byte {
 	case "ok":
 		fields = append(fields, F("34", strconv.Itoa(a.Seq)))
 	case "nonnum":
-		if a.Empty {
-			fields = append(fields, F("34", ""))
-		} else {
-			fields = append(fields, F("34", "abc"))
-		}
+		fields = append(fields, F("34", bad("abc")))
 	}
 	fields = append(fields, F("52", ts))
-	if a.Integ == "nonnum" {
-		if a.Empty {
-			fields = append(fields, F("369", ""))
-		} else {
-			fields = append(fields, F("369", "x1")) // LastMsgSeqNumProcessed is an int field of the header
-		}
+	if a.Integ == "nonnum" && !ownField {
+		fields = append(fields, F("369", bad("x1"))) // LastMsgSeqNumProcessed is an int field of the header
 	}
 	fields = append(fields, body...)
 	return Damage(Frame(fields), a.Integ)
